@@ -490,3 +490,52 @@ def env1(P, C):
     C.ob("ENV-1", "library", "fp-environment-untouched", not hits, hits[0][0].loc(hits[0][1]) if hits else "include/photospline",
          ("%d functions analysed, none writes the floating-point control state" % nfun) if not hits else
          "%s in %s changes the floating-point control state and nothing restores it" % (hits[0][2], hits[0][0].name))
+
+
+def rh2(P, C):
+    """RH-2: no failure is raised while fit holds a CHOLMOD workspace and the penalty matrix."""
+    C.rule("RH-2", "fit starts a CHOLMOD workspace (cholmod_l_start), builds the penalty matrix in it and releases both (cholmod_l_free_sparse, "
+           "cholmod_l_finish) before it reports the fitter's failure; in between there is no `throw` and no call to a function of the library "
+           "that throws — every rejection of an argument happens before the workspace exists, otherwise the workspace and the matrix built "
+           "so far are leaked each time the C wrapper returns non-zero", floor=2)
+    from . import ts
+    fs_ = [f for f in P.fns("fit") if f.cls == ts.CLS and f.unit == "driver"]
+    if len(fs_) != 2:
+        raise core.AnalysisBroken("RH-2: expected two instantiations of fit")
+    mt = P.maythrow()
+    for f in fs_:
+        pos = f.node_positions()
+        st = [i for i, cal in f.calls() if cal and cal["name"] == "cholmod_l_start" and i in pos]
+        fi = [i for i, cal in f.calls() if cal and cal["name"] == "cholmod_l_finish" and i in pos]
+        if len(st) != 1 or len(fi) != 1:
+            C.ob("RH-2", ts.fshort(f), "workspace-bracket", False, f.where(), "expected one cholmod_l_start and one cholmod_l_finish, found %d / %d" % (len(st), len(fi)))
+            continue
+        ps, pe = pos[st[0]], pos[fi[0]]
+        after_s = f.reachable_blocks(ps[0])
+        after_e = f.reachable_blocks_from_succs(pe[0]) | {pe[0]}
+
+        def inside(x):
+            p = pos.get(x)
+            while p is None and x >= 0:
+                x = f.parent[x]
+                p = pos.get(x)
+            if p is None:
+                return False
+            if p[0] == ps[0] and p[1] <= ps[1]:
+                return False
+            if p[0] == pe[0]:
+                return p[1] < pe[1]
+            return p[0] in after_s and p[0] not in after_e
+        bad = []
+        for x in f.walk():
+            n = f.nodes[x]
+            if n["k"] == "CXXThrowExpr" and inside(x):
+                bad.append((x, "throw"))
+            cal = n.get("callee")
+            if cal and cal.get("inRoots") and cal.get("usr") in mt and inside(x) and cal["name"] not in ("allocate",):
+                g = P.functions.get(cal["usr"])
+                if g is not None and any(g.k(y) == "CXXThrowExpr" for y in g.walk()):
+                    bad.append((x, "call of %s, which throws" % cal["name"]))
+        C.ob("RH-2", ts.fshort(f), "no-raise-inside-the-workspace", not bad, f.loc(bad[0][0]) if bad else f.loc(st[0]),
+             "nothing is thrown between cholmod_l_start and cholmod_l_finish" if not bad else
+             "%s at %s while the CHOLMOD workspace (and the penalty built so far) is held: they are never released on that path" % (bad[0][1], f.loc(bad[0][0])))
